@@ -461,6 +461,7 @@ func ruleChunkLimits(c *Ctx, r *Report, prefix string) {
 		"(lzma.Writer2Config).NewWriter2":     "65536",
 		"(*lzma.Writer2).flushChunk":          "65536",
 		"lzma.newRangeEncoder":                "9223372036854775807",
+		"lzma.init":                           "9223372036854775807", // a package-level template of the unlimited writer (copied, GL-GLOBAL watches who writes it)
 		"(*lzma.LimitedByteWriter).WriteByte": "N-1",
 	}
 	n := 0
